@@ -13,7 +13,7 @@ python3 tools/derive_unit.py contracts/C10/supplier_mapping.toml contracts/C09/s
   --not-covered "be::retrieve_range (WHICH entries fall inside the windows) and ReplIncrementalEntryV1::new (which attribute states of an entry are sent); the consumer side applying every supplied entry (consumer_apply_changes); supplier_provide_refresh"
 python3 tools/derive_unit.py contracts/C26/lifecycle.toml contracts/C23/hidden_wrapper.toml C23 hidden_wrapper 'fc_match\(r' \
   --not-covered "that every search / exists / LDAP entry point builds its executed filter with into_ignore_hidden (the event constructors), and into_recycled for recycle-bin searches"
-python3 tools/derive_unit.py contracts/C26/write_txn.toml contracts/C07/txn_steps.toml C07 txn_steps 'stored_ok|cid_max\.max\.ts\.dlt|max_ts\.dlt\(r\.ts\)' \
+python3 tools/derive_unit.py contracts/C26/write_txn.toml contracts/C07/txn_steps.toml C07 txn_steps 'stored_ok|stored_ts_max|cid_max\.max\.ts\.dlt|max_ts\.dlt\(r\.ts\)' \
   --not-covered "QueryServer::new (reseeding cid_max from the stored ts_max at start-up), that cid.commit() publishes the new maximum to later transactions (CowCell semantics), replication applying remote change ids"
 python3 tools/derive_unit.py contracts/C26/write_txn.toml contracts/C04/commit_order.toml C04 commit_order 'stored_ok' \
   --not-covered "everything else in C04: operations that fail before commit (abandoned transactions are dropped: Drop of the CowCell / SQLite handles, not under contract), IdmServerProxyWriteTransaction::commit, the id-layer cache commits, storage faults inside the backend (C05)" \
